@@ -186,4 +186,10 @@ def build(reg):
                  modifies=['self.queue', 'self.retained'], locals_types={'new': OSK},
                  note='LIMIT/ORDER BY queue: one call = sorted insert at the documented position + truncation to LIMIT')
         return u
-    return [make_unit(False), make_unit(True)]
+    watch = [Watch(F, 'query', 'builds a pyparsing grammar; loops every artifact over every expression and unions the retained sets'),
+             Watch(F, 'RetainExpression.__init__', 'LIMIT/ORDER parsing; the nested cmpItem functions are verified through evaluate'),
+             Watch(F, 'doArchiveClean', 'three passes: select, transitive closure over references, delete'),
+             Watch(F, 'ArchiveScanner.scan', 'sqlite index of the archive (SQL semantics not modelled)'),
+             Watch(F, 'ArchiveScanner.__exit__', 'index pruning (SQL)'),
+             Watch('pym/bob/audit.py', 'Audit.getReferencedBuildIds', 'references of an audit trail')]
+    return [make_unit(False), make_unit(True)] + watch
